@@ -517,6 +517,36 @@ def mon_C15(md_lib, cfg, ops, impl, stats, r=None):
         prev = cur
     return out
 
+# ---- C16 --------------------------------------------------------------------------------------------
+def data_by_object(raw_block):
+    """'#DATA <obj> <path> [ hits... ]' lines (obj = object number, or B for the object loaded from the binary archive)"""
+    out = {}
+    for l in raw_block:
+        if l.startswith("#DATA "):
+            _, obj, rest = l.split(" ", 2)
+            out.setdefault(obj, []).append(rest)
+    return out
+
+def mon_C16(md_lib, cfg, ops, impl, stats, r=None):
+    """mon_C15, and: the data every state opted into serialization with (its entry counter) is the same in the loaded
+    object as in the saved one, for every state of every machine of the tree - active or not -, in both archive formats"""
+    out = mon_C15(md_lib, cfg, ops, impl, stats, r)
+    raw = (r or {}).get("impl_raw") or []
+    for k, block in enumerate(raw):
+        op = ops[k] if k < len(ops) else None
+        if not op or op[0] != "saveload":
+            continue
+        d = data_by_object(block)
+        src, dst = d.get(str(op[2])), d.get(str(op[1]))
+        if src is None or dst is None:
+            continue
+        stats.dist[("state data compared after load", "nonzero" if any(any(c not in "[ ]0" for c in x.split(" ", 1)[1]) for x in src) else "all zero")] += 1
+        if dst != src:
+            out.append("op %d saveload: opted-in state data of the loaded object %d is %s, of the saved object %d it is %s" % (k, op[1], dst, op[2], src))
+        if d.get("B") is not None and d.get("B") != src:
+            out.append("op %d saveload: opted-in state data loaded from the binary archive is %s, saved was %s" % (k, d.get("B"), src))
+    return out
+
 # ---- C13 --------------------------------------------------------------------------------------------
 # ---- state ids are numbered per engine: for comparisons across configurations translate them (and the machine
 # paths, which consist of state ids) back to declaration indices
